@@ -105,7 +105,8 @@ func (c *Curve) FromCompressed(input []byte) (*Point, error) {
 	if ok != 1 {
 		return nil, curves.ErrInvalidCoordinates.WithMessage("x")
 	}
-	if x.IsZero() == 1 {
+	// 02||0..0 is the encoding of the identity; 03||0..0 is the point (0, y) with odd y
+	if x.IsZero() == 1 && sign == 0 {
 		return c.OpIdentity(), nil
 	}
 
